@@ -1,3 +1,55 @@
 import Driver.Common
-/- stub: model driver for C12 not built yet -/
-def main : IO Unit := Driver.lineLoop (fun _ => "unimplemented")
+import ThriftVerif.Lib.FileManager
+import ThriftVerif.Generated.C12
+/-
+  Model driver for C12.  One history per line:
+    H <ncalls> ( <nitems> ( <name|~> <ip> <content> )* )*
+  name: `~` = unset, otherwise hex ("-" = set and empty); ip, content: hex.
+  Answer: R <outcome,outcome,…|-> <nfiles> ( <name> <content> )*
+-/
+namespace Driver.C12
+open FileManager
+
+def parseItems : Nat → List String → Option (List Item × List String)
+  | 0, ts => some ([], ts)
+  | n + 1, nm :: ip :: ct :: ts => do
+    let name ← if nm = "~" then some none else (VL.hexDecode nm).map some
+    let ip ← VL.hexDecode ip
+    let ct ← VL.hexDecode ct
+    let (r, ts') ← parseItems n ts
+    pure (⟨name, ip, ct⟩ :: r, ts')
+  | _, _ => none
+
+def parseCalls : Nat → List String → Option (List (List Item))
+  | 0, [] => some []
+  | 0, _ => none
+  | n + 1, k :: ts => do
+    let k ← k.toNat?
+    let (c, ts') ← parseItems k ts
+    let r ← parseCalls n ts'
+    pure (c :: r)
+  | _, _ => none
+
+def outcomeStr : Outcome → String
+  | .ok => "ok" | .err => "err" | .panic => "panic"
+
+def handleLine (line : String) : String :=
+  match VL.toks line with
+  | "H" :: n :: rest =>
+    match n.toNat? with
+    | none => "bad-op"
+    | some n =>
+      match parseCalls n rest with
+      | none => "bad-op"
+      | some calls =>
+        let st := feedAll St.init calls
+        let os := outcomes St.init calls
+        let res := build Generated.C12.cfg st
+        let o := if os.isEmpty then "-" else ",".intercalate (os.map outcomeStr)
+        let fs := res.map fun (n, c) => VL.hexEncode n ++ " " ++ VL.hexEncode c
+        " ".intercalate (["R", o, toString res.length] ++ fs)
+  | _ => "bad-op"
+
+end Driver.C12
+
+def main : IO Unit := Driver.lineLoop Driver.C12.handleLine
